@@ -113,7 +113,7 @@ def island_failures(rows, img, innerclip, outerclip, rmsval):
             break
     with np.errstate(invalid='ignore'):
         snr = np.abs(img) / rmsval
-        lab, nl = label(snr > outerclip)
+        lab, nl = label(snr > outerclip, structure=np.ones((3, 3)))      # islands are 8-connected groups (C02)
     ref = []
     for k, sl in enumerate(find_objects(lab), start=1):
         own = lab[sl] == k
